@@ -457,3 +457,12 @@ fn c02_v6_extract_udp() {
 fn c02_v6_extract_tcp() {
     extract_contract(Protocol::Tcp);
 }
+
+/// Reset harness-side statics between native witness-search trials.
+fn verif_reset_statics() {
+    sock::reset();
+    unsafe {
+        EXPECT.active = false;
+    }
+    clock::set(0, 0, 0);
+}
